@@ -155,7 +155,7 @@ def rec_metric(ref, pred, metric: str, sel: bool, ri=None, pis=None, dtype=np.ui
     n = int(np.prod(ref.shape))
     rec = {"shape": shape_of(ref), "ref": flat(ref.astype(np.int64), rmap), "pred": flat(pred.astype(np.int64), rmap),
            "metric": metric, "sel": bool(sel), "ri": rmap.get(int(ri), 0) if sel else 0,
-           "pis": [rmap[int(p)] for p in pis] if sel else [0], "out": "ok", "val": TOK("skip"), "zero": False,
+           "pis": [rmap.get(int(p), 0) if int(p) == 0 else rmap[int(p)] for p in pis] if sel else [0], "out": "ok", "val": TOK("skip"), "zero": False,
            "skr": [], "skp": [], "big": bool(max(ref.shape) > 46340), "meta": dict(meta or {})}
     rec["meta"].update({"dtype": str(np.dtype(dtype)), "raw_ref": ref.ravel().tolist(), "raw_pred": pred.ravel().tolist(),
                         "raw_ri": ri, "raw_pis": list(pis) if sel else None})
@@ -250,6 +250,17 @@ def gen_metric_records(rng, metrics, n_random, exhaustive, dims=(1, 2, 3)):
             ri = rng.choice(rl)
             k = rng.choice([1, 1, 2, 3]) if style >= 0.25 else rng.randint(12, len(pl))
             pis = rng.sample(pl, min(k, len(pl)))
+            if style >= 0.4 and rng.random() < 0.15:
+                # the background is a label like any other; a list of prediction labels may be empty
+                which = rng.choice(["ref0", "pred0", "both0", "empty", "with0"])
+                if which in ("ref0", "both0"):
+                    ri = 0
+                if which in ("pred0", "both0"):
+                    pis = [0]
+                if which == "empty":
+                    pis = []
+                if which == "with0":
+                    pis = [0] + pis[:1]
             rm, pm = ref == ri, np.isin(pred, pis)
             if not _defined(m, rm, pm):
                 continue
